@@ -19,8 +19,19 @@ let parse_tx v ins outs lock uns : tx =
     tx_lock = arg_n lock; tx_unspents = arg_list parse_unspent uns }
 let parse_coin = function
   | "BTC" -> BTC | "LTC" -> LTC | "BCH" -> BCH | "BTG" -> BTG | "GRS" -> GRS | c -> failwith ("coin " ^ c)
-let sha = oracle "sha256"
-let dsha = oracle "dsha256"
+(* the oracle with a small memo table: the BIP143 sub-hashes of one transaction recur for every hash type *)
+let cached (name : string) : byte list -> byte list =
+  let tbl : (string, byte list) Hashtbl.t = Hashtbl.create 4096 in
+  fun data ->
+    let k = hex_of_bytes data in
+    match Hashtbl.find_opt tbl k with
+    | Some r -> r
+    | None ->
+      let r = oracle name data in
+      if Hashtbl.length tbl > 20000 then Hashtbl.reset tbl;
+      Hashtbl.add tbl k r; r
+let sha = cached "sha256"
+let dsha = cached "dsha256"
 let hash_of = function "d" -> dsha | "s" -> sha | h -> failwith ("hash " ^ h)
 let show_presig = function PConst v -> "(C " ^ show_n v ^ ")" | PPreimage p -> "(P " ^ show_bytes p ^ ")"
 let show_core = function CoreOne -> "(C " ^ show_bytes uint256_one ^ ")" | CorePreimage p -> "(P " ^ show_bytes p ^ ")"
